@@ -496,6 +496,11 @@ func (fc *FnCtx) unop(in *ssa.UnOp, st *State) {
 		v := vc.load(st, x, in.Type())
 		v = fc.nameVal("ld_"+in.Name(), v)
 		fc.assume(fc.typeFacts(v, st.NA))
+		if g, ok := in.X.(*ssa.Global); ok && v.K == KIface && isSentinelError(g) {
+			// A-ERRVARS: sentinel error variables (io.EOF, errX = errors.New(...)) are non-nil and never reassigned
+			fc.assume(not(eq(v.Tag, "0")))
+			fc.note("sentinel error variable %s.%s assumed non-nil", g.Pkg.Pkg.Name(), g.Name())
+		}
 		fc.vals[in] = v
 	case token.NOT:
 		fc.vals[in] = boolV(not(x.S))
